@@ -55,7 +55,10 @@ class Runner:
         env = dict(os.environ)
         env["PYTHONPATH"] = os.pathsep.join(
             list(self.pythonpath_prefix) + [os.path.join(self.repo, "src")])
-        env["PYTHONHASHSEED"] = "0"
+        # deterministic per run, but not the same for every seed: behaviour
+        # that depends on set / dict-of-object iteration order gets a chance
+        env["PYTHONHASHSEED"] = str(
+            int(os.environ.get("VERIF_SEED", "0") or 0) % 4294967295)
         env["PYTHONDONTWRITEBYTECODE"] = "1"
         if self.native:
             env.pop("DECIMALFP_FORCE_PYTHON_IMPL", None)
